@@ -4,6 +4,7 @@
 package proto
 
 import (
+	"encoding/binary"
 	"net"
 
 	"github.com/pion/stun/v3"
@@ -32,7 +33,36 @@ func (a PeerAddress) AddTo(m *stun.Message) error {
 
 // GetFrom decodes XOR-PEER-ADDRESS from message.
 func (a *PeerAddress) GetFrom(m *stun.Message) error {
+	if err := checkXORAddressSize(m, stun.AttrXORPeerAddress); err != nil {
+		return err
+	}
+
 	return (*stun.XORMappedAddress)(a).GetFromAs(m, stun.AttrXORPeerAddress)
+}
+
+const (
+	xorAddressFamilyIPv4 = 0x01
+	xorAddressFamilyIPv6 = 0x02
+	xorAddressHeaderSize = 4
+)
+
+// checkXORAddressSize asserts that the value of an XOR address attribute holds a whole
+// address of its family. A shorter value would otherwise be decoded as an address
+// padded with zeroes.
+func checkXORAddressSize(m *stun.Message, attr stun.AttrType) error {
+	v, err := m.Get(attr)
+	if err != nil || len(v) <= xorAddressHeaderSize {
+		return err
+	}
+
+	switch binary.BigEndian.Uint16(v[0:2]) {
+	case xorAddressFamilyIPv4:
+		return stun.CheckSize(attr, len(v), xorAddressHeaderSize+net.IPv4len)
+	case xorAddressFamilyIPv6:
+		return stun.CheckSize(attr, len(v), xorAddressHeaderSize+net.IPv6len)
+	default:
+		return nil
+	}
 }
 
 // XORPeerAddress implements XOR-PEER-ADDRESS attribute.
